@@ -99,12 +99,18 @@ Fail(e, O, st2) ==   \* st2: the store after the move (driven by the harness, he
         ELSE {})
   \cup (IF "panic" \in DOMAIN e THEN {<<"C07.Panicked", l>>} ELSE {})
 
-\* at the end of a run: no request stayed unanswered for Patience timer periods before it was re-sent to a peer other than the first target
-\* (bwait / mwait count the time an unanswered request waited before its first re-send elsewhere)
-EndFail ==
-  {<<"C07.UnansweredRequestRetried", l>> : d \in {x \in breqd : bwait[x] >= Patience * (BlockTimer + BRetryDelay)}}
+\* an unanswered request is re-sent to peers other than its first target again and again: it never goes Patience timer periods without such a
+\* re-send (the first one included).  Evaluated at the move in which the gap crosses the bound.
+GapFail(e, O) ==
+  LET dt == IF e.mv.a = "advance" THEN e.mv.ms ELSE 0
+      bnow == {o.d : o \in {x \in O : x.k = "breq" /\ x.d \in breqd /\ <<x.d, x.to>> \notin bfirst}}
+      mnow == UNION {{y \in o.ds : y \in mreqd /\ <<y, o.to>> \notin mfirst} : o \in {x \in O : x.k = "mreq"}}
+      bb == Patience * (BlockTimer + BRetryDelay)
+      mb == Patience * (BatchTimer + MRetryDelay) IN
+  {<<"C07.UnansweredRequestRetried", l>> : d \in {x \in breqd \ stored : x \notin bnow /\ bwait[x] < bb /\ bwait[x] + dt >= bb}}
   \cup (IF cleaned THEN {} ELSE
-        {<<"C13.UnansweredBatchRequestRetried", l>> : d \in {x \in mreqd : mwait[x] >= Patience * (BatchTimer + MRetryDelay)}})
+        {<<"C13.UnansweredBatchRequestRetried", l>> : d \in {x \in mreqd \ stored : x \notin mnow /\ mwait[x] < mb /\ mwait[x] + dt >= mb}})
+EndFail == {}
 
 HistStep(e, O) ==
   LET a == e.mv.a
@@ -120,11 +126,14 @@ HistStep(e, O) ==
   /\ breqd' = breqd \cup {o.d : o \in breqs}
   /\ bfirst' = bfirst \cup {<<o.d, o.to>> : o \in {x \in breqs : x.d \notin breqd}}
   /\ bretried' = bretried \cup {o.d : o \in {x \in breqs : x.d \in breqd /\ <<x.d, x.to>> \notin bfirst}}
-  /\ bwait' = [d \in Blocks |-> IF d \in breqd /\ d \notin st2 /\ d \notin bretried' THEN bwait[d] + dt ELSE bwait[d]]
+  \* bwait / mwait: how long an unanswered request has gone without being (re-)sent to a peer other than its first target
+  /\ bwait' = [d \in Blocks |-> IF d \in {o.d : o \in {x \in breqs : x.d \in breqd /\ <<x.d, x.to>> \notin bfirst}} THEN 0
+                               ELSE IF d \in breqd /\ d \notin st2 THEN bwait[d] + dt ELSE bwait[d]]
   /\ mreqd' = mreqd \cup UNION {o.ds : o \in mreqs}
   /\ mfirst' = mfirst \cup UNION {{<<d, o.to>> : d \in o.ds \ mreqd} : o \in mreqs}
   /\ mretried' = mretried \cup UNION {{d \in o.ds : d \in mreqd /\ <<d, o.to>> \notin mfirst} : o \in mreqs}
-  /\ mwait' = [d \in Batches |-> IF d \in mreqd /\ d \notin st2 /\ d \notin mretried' THEN mwait[d] + dt ELSE mwait[d]]
+  /\ mwait' = [d \in Batches |-> IF d \in UNION {{y \in o.ds : y \in mreqd /\ <<y, o.to>> \notin mfirst} : o \in mreqs} THEN 0
+                                ELSE IF d \in mreqd /\ d \notin st2 THEN mwait[d] + dt ELSE mwait[d]]
 
 TNext ==
   /\ l <= Len(Rec) /\ l' = l + 1
@@ -137,7 +146,7 @@ TNext ==
              /\ ndiv' = IF agree THEN ndiv ELSE ndiv + 1
              /\ div' = IF agree \/ Len(div) >= 20 THEN div
                        ELSE Append(div, [rec |-> l, kind |-> e.mv.a, want |-> [res |-> res', out |-> out'], got |-> [res |-> e.res, out |-> ObsCmp(e)]])
-          /\ viol' = viol \cup Lim(Fail(e, O, IF e.mv.a = "write" THEN stored \cup {e.mv.key} ELSE stored))
+          /\ viol' = viol \cup Lim(Fail(e, O, IF e.mv.a = "write" THEN stored \cup {e.mv.key} ELSE stored) \cup GapFail(e, O))
           /\ nsteps' = nsteps + 1
      ELSE IF e.t \in {"reset", "end"}
      THEN /\ viol' = IF l = 1 THEN viol ELSE viol \cup Lim(EndFail)
